@@ -38,6 +38,8 @@ class ProgGen:
         self.locals = []     # names
         self.env = {}        # var -> current hi bound (locals assigned so far, state)
         self.nloc = 0
+        self.ternaries = True
+        self.guards = True
 
     # ---------------------------------------------------------------- expressions
     def leaf(self):
@@ -67,6 +69,9 @@ class ProgGen:
             return self.leaf()
         a = self.expr(depth + 1)
         b = self.expr(depth + 1)
+        if self.ternaries and rng.random() < 0.12:
+            c = self.cond(2)
+            return E('(%s if %s else %s)' % (a.src, c, b.src), min(a.lo, b.lo), max(a.hi, b.hi), a.wide and b.wide)
         for _ in range(6):
             op = rng.choice(['+', '+', '-', '*', '//', '%', '&', '|', '^', '<<', '>>'])
             if op == '+' and a.hi + b.hi <= LIMIT:
@@ -157,7 +162,10 @@ class ProgGen:
                 env0 = dict(self.env)
                 envs = []
                 for k in sorted(rng.sample(range(bound + 1), rng.randint(1, min(3, bound + 1)))):
-                    lines.append(pad + '    case %d:' % k)
+                    if self.guards and rng.random() < 0.15:
+                        lines.append(pad + '    case %d if %s:' % (k, self.cond(1)))
+                    else:
+                        lines.append(pad + '    case %d:' % k)
                     lines += self.stmts(depth + 2, rng.randint(1, 2), ind + 2)
                     envs.append(self.env)
                     self.env = dict(env0)
